@@ -21,7 +21,7 @@ import time
 from fractions import Fraction
 
 sys.path.insert(0, os.path.dirname(os.path.abspath(__file__)))
-from vlib import env, tlc, pool
+from vlib import env, tlc, pool, callgen
 from vlib.report import Check
 from vlib.compare import close_prob
 
@@ -129,6 +129,86 @@ def validate_traces(ck, cases, label, expect_reject=False):
             ck.violation("trace-reject", r, key={"site": "mcmc_sampler:" + r["event"]["op"], "clause": r["clause"],
                                                 "kind": r["case"]["kind"]})
     return n, rejects
+
+
+def restricted(H, A, w, reads, P, Fn, tag):
+    """the instance the sampler of `mchap call` works on: zero-frequency alleles removed (labels compacted)"""
+    keep = [i for i, x in enumerate(w) if x > 0]
+    return {"P": P, "Fn": Fn, "Fd": 4, "H": [H[i] for i in keep], "A": A, "w": [w[i] for i in keep], "reads": reads,
+            "K": len(keep), "N": len(A), "tag": tag}
+
+
+def run_call_cli(ck, insts, rnd, tier):
+    """`mchap call` on generated FASTA/VCF/BAM: py-mode recording of every sampler run (code -> spec), and, in thorough,
+    a long compiled run compared with `mchap call-exact` on the same files (informational)."""
+    d = os.path.join(ck.wd, "cli")
+    os.makedirs(d, exist_ok=True)
+    base = {}
+    for I in insts.values():
+        i = I.inst
+        base.setdefault((i["m"], i["pat"], i["rs"]), i)
+    n_loci = 8 if tier == "quick" else 30
+    chosen = rnd.sample(sorted(base), min(n_loci, len(base)))
+    loci = []
+    for key in chosen:
+        i = base[key]
+        loci.append({"name": "%s_%s_%d" % key, "H": i["H"], "A": i["A"], "w": list(i["w"]), "reads": i["reads"], "refmasked": False})
+        if i["K"] >= 3:     # zero-frequency variants: the sampler must work on the remaining alleles only
+            w0 = list(i["w"]); w0[0] = 0
+            loci.append({"name": "%s_%s_%d_refzero" % key, "H": i["H"], "A": i["A"], "w": w0, "reads": i["reads"], "refmasked": True})
+            w1 = list(i["w"]); w1[-1] = 0
+            loci.append({"name": "%s_%s_%d_lastzero" % key, "H": i["H"], "A": i["A"], "w": w1, "reads": i["reads"], "refmasked": False})
+    samples = [(P, Fn) for P in (2, 3, 4) for Fn in (0, 1, 3)]
+    sname = {pf: "P%dF%d" % pf for pf in samples}
+    clen = callgen.write_fasta(os.path.join(d, "ref.fa"), len(loci))
+    bams = []
+    for pf in samples:
+        path = os.path.join(d, sname[pf] + ".bam")
+        callgen.write_bam(path, sname[pf], clen, [loc["reads"] for loc in loci])
+        bams.append(path)
+    callgen.write_sample_map(os.path.join(d, "ploidy.txt"), [(sname[pf], pf[0]) for pf in samples])
+    callgen.write_sample_map(os.path.join(d, "inbreeding.txt"), [(sname[pf], pf[1] / 4) for pf in samples])
+    callgen.write_vcf(os.path.join(d, "haps.vcf"), loci, clen, tag="AFW")
+    common = ["--haplotypes", os.path.join(d, "haps.vcf"), "--prior-frequencies", "AFW", "--bam"] + bams + [
+        "--ploidy", os.path.join(d, "ploidy.txt"), "--inbreeding", os.path.join(d, "inbreeding.txt"), "--base-error-rate", "0.125"]
+    expected = []
+    for loc in loci:
+        for pf in samples:
+            expected.append(restricted(loc["H"], loc["A"], loc["w"], loc["reads"], pf[0], pf[1], loc["name"] + ":" + sname[pf]))
+    steps = 5 if tier == "quick" else 8
+    argv = ["mchap", "call"] + common + ["--mcmc-chains", "1", "--mcmc-steps", str(steps), "--mcmc-burn", "1", "--mcmc-seed", str(ck.seed + 11)]
+    rr = pool.map_tasks("impl.c02", [{"op": "call_trace", "argv": argv, "instances": expected}], mode="py")[0]
+    traces = []
+    if not rr["ok"]:
+        ck.violation("cli-error", {"argv": argv, "error": rr["error"], "tb": rr.get("tb")}, key={"site": "mchap call", "field": "exception"})
+    else:
+        traces = rr["result"]["traces"]
+        if len(traces) != len(expected) or rr["result"]["extra_calls"]:
+            ck.machinery_failure("mchap call made %d sampler runs (+%d), expected %d" % (len(traces), rr["result"]["extra_calls"], len(expected)))
+        recs = callgen.parse_vcf_samples(rr["result"]["stdout"])
+        if [r_["id"] for r_ in recs] != [loc["name"] for loc in loci]:
+            ck.machinery_failure("mchap call printed unexpected records")
+    ck.note("cli_call_loci", len(loci))
+    ck.note("cli_call_sampler_runs_recorded", len(traces))
+    if tier == "thorough":
+        a1 = ["mchap", "call"] + common + ["--mcmc-chains", "2", "--mcmc-steps", "3000", "--mcmc-burn", "500", "--report", "AFP"]
+        a2 = ["mchap", "call-exact"] + common + ["--report", "AFP"]
+        res = pool.map_tasks("impl.c02", [{"op": "cli_run", "argv": a1}, {"op": "cli_run", "argv": a2}], mode="jit", warm_first=False)
+        if all(x["ok"] for x in res):
+            r1, r2 = (callgen.parse_vcf_samples(x["result"]) for x in res)
+            dev_afp = dev_gpm = 0.0
+            same_gt = total = 0
+            for x, y in zip(r1, r2):
+                for nm in x["samples"]:
+                    sx, sy = x["samples"][nm], y["samples"][nm]
+                    fa, fb = callgen.numlist(sx["AFP"]), callgen.numlist(sy["AFP"])
+                    if fa and fb and None not in fa and None not in fb:
+                        dev_afp = max(dev_afp, max(abs(p - q) for p, q in zip(fa, fb)))
+                    dev_gpm = max(dev_gpm, abs(float(sx["GPM"]) - float(sy["GPM"])))
+                    total += 1
+                    same_gt += sx["GT"] == sy["GT"]
+            ck.note("informational_cli_call_vs_call_exact", {"cells": total, "same_GT": same_gt, "max_abs_dev_AFP": dev_afp, "max_abs_dev_GPM": dev_gpm})
+    return traces
 
 
 def random_instance(rnd):
@@ -370,6 +450,8 @@ def main():
         I = insts[k]
         a0 = list(rnd.choice(sorted(I.states)))
         a0.sort()
+        if rnd.random() < 0.5:
+            a0 = None          # let CallingMCMC.fit choose the start with greedy_caller
         tj.append({"inst": I.inst, "a0": a0, "kind": rnd.choice(["gibbs", "mh"]), "n_steps": steps, "seed": rnd.randrange(2**31)})
     for _ in range(n_rand):
         inst = random_instance(rnd)
@@ -383,6 +465,9 @@ def main():
             continue
         cases.extend(rr["result"])
     log("sampler traces recorded: %d" % len(cases))
+    cli_traces = run_call_cli(ck, insts, rnd, tier)
+    log("mchap call runs recorded: %d" % len(cli_traces))
+    cases.extend(cli_traces)
     n_ev, _ = validate_traces(ck, cases, "sampler")
     ck.traces += len(cases)
     ck.evaluations += n_ev
